@@ -54,6 +54,13 @@ def gen_base(rng, tier, index):
         return {"pool": "factory", "workers": 1, "quota": 1, "wq": 1.0, "rq": None, "no_sweep": True, "limit_factor": 3,
                 "slow_create": 1.4, "calls": [{"ordered": True, "n": 3, "chunk": 1, "form": "list"},
                                               {"ordered": False, "n": 2, "chunk": 1, "form": "gen"}]}
+    if index == 10 or (tier == "thorough" and index % 40 == 10):
+        # chunks that take a little longer than a second (the period of any plausible liveness poll): a worker retires just
+        # after such a poll has expired; delays are injected at the statements of the replace thread only
+        t = 1.05 if tier == "quick" else rng.choice([1.05, 1.02, 2.05])
+        return {"pool": "factory", "workers": 1 + index % 2, "quota": 1, "wq": 1.0, "rq": None, "limit_factor": 2,
+                "sweep_only": ["FactoryFunctorPool.ReplaceWorkerThread.run"],
+                "calls": [{"ordered": True, "n": 3, "chunk": 1, "form": "list", "durations": {"mode": "all", "t": t}}]}
     if index % 8 == 5:
         # many short calls, each with fewer chunks than the quota, together far more than workers*quota: retirements are
         # spread over calls and fall at call boundaries
